@@ -86,6 +86,10 @@ def check(pm: ProgramModel, ctx: Ctx) -> None:
               # numbers at the edges of what a text carries exactly: 17 significant digits, exponents, beyond 2**53
               "float-17-digits": 0.30000000000000004, "float-third": 1 / 3, "float-next-after-one": 1.0000000000000002,
               "float-large-exponent": 1e22, "float-small-exponent": 1.5e-07, "float-beyond-2**53": 9007199254740994.0,
+              # values that look like the document's own structure: maps keyed like the format's entries
+              "map-keyed-name": {"name": "Ada Lovelace"}, "list-of-maps-keyed-name": [{"name": "x y"}, {"name": "z"}],
+              "map-keyed-like-entries": {"type": "XOR", "relations": [], "attributes": [{"name": "a b", "value": 1}],
+                                         "card_min": 0, "children": ["c d"]},
               "int-beyond-2**53": 9007199254740993, "int-20-digits": 12345678901234567890, "negative-float": -0.5}
     for vk, v in values.items():
         root = mb.feature("Root")
